@@ -361,7 +361,9 @@ def rootless(ctx):
     two = ast.Call(func=ast.Name(id="Zip", ctx=ast.Load()), args=[a.Select("lambda e: e.x").query_ast, b.query_ast], keywords=[])
     nested = a.Select("lambda e: e.x").query_ast
     nested.args[1].body = b.query_ast
-    for what, tree in [("two roots as arguments", two), ("second root inside a lambda", nested)]:
+    inside = astx.parse_expr("Select(EventDataset(EventDataset()), lambda e: e)")
+    inside_kw = astx.parse_expr("Select(EventDataset(source=EventDataset()), lambda e: e)")
+    for what, tree in [("two roots as arguments", two), ("second root inside a lambda", nested), ("second root among the first root's arguments", inside), ("second root as a keyword of the first root", inside_kw)]:
         ctx.case("multiroot:" + what, True)
         try:
             find_EventDataset(tree)
